@@ -59,21 +59,62 @@ def toFloatBits (p : Nat) (i : Int) : Rat :=
   let r : Rat := (q : Rat) * ((2 ^ e : Nat) : Rat)
   if i < 0 then -r else r
 
-/-- how `choose_int_dtype` sees a limit `this_info.min/max`: exactly when the
-bounds were converted to Python ints or are numpy integers (`none`), rounded to
-the float type of the bounds otherwise (`some 24` = float32, `some 53` = float64) -/
-def seenLimit (floatBits : Option Nat) (i : Int) : Rat :=
+/-- how the source compares the rounded bounds with `this_info.min/max`
+(regenerated from the source, see `Generated.intLadderCompare`):
+`native` - the bounds stay numpy scalars of the stored float type, and NumPy ≥ 2
+casts the Python-int limit to that type before comparing;
+`float64` - the bounds are first converted with `np.float64(..)`;
+`exact` - the bounds are converted to Python ints (`int(np.round(..))`) -/
+inductive CompareMode where
+  | native | float64 | exact
+  deriving Repr, BEq, DecidableEq, Inhabited
+
+def CompareMode.ofString (s : String) : CompareMode :=
+  if s == "exact" then .exact else if s == "float64" then .float64 else .native
+
+/-- a limit as seen by a comparison with a float bound of `p` significand bits -/
+def seenLimitFloat : CompareMode → Nat → Int → Rat
+  | .exact, _, i => (i : Rat)
+  | .native, p, i => toFloatBits p i
+  | .float64, _, i => toFloatBits 53 i
+
+/-- how `choose_int_dtype` sees a limit `this_info.min/max` under comparison
+mode `mode`: exactly when the bounds are numpy integers (`floatBits = none`),
+as `seenLimitFloat` says when they are floats (`some 24` = float32, `some 53` =
+float64) -/
+def seenLimitMode (mode : CompareMode) (floatBits : Option Nat) (i : Int) : Rat :=
   match floatBits with
   | none => (i : Rat)
-  | some p => if Generated.intLadderExactCompare then (i : Rat) else toFloatBits p i
+  | some p => seenLimitFloat mode p i
 
 abbrev Rung := String × Int × Int
 
 /-- `int_min >= this_info.min and int_max <= this_info.max` -/
+def rungAcceptsMode (mode : CompareMode) (floatBits : Option Nat) (lo hi : Int) (r : Rung) : Bool :=
+  decide (seenLimitMode mode floatBits r.2.1 ≤ (lo : Rat)) &&
+    decide ((hi : Rat) ≤ seenLimitMode mode floatBits r.2.2)
+
+/-- `choose_int_dtype((mn, mx))` under an explicit comparison mode -/
+def chooseIntDtypeMode (mode : CompareMode) (floatBits : Option Nat) (mn mx : Rat) : Rung :=
+  match Generated.intLadder.find?
+      (rungAcceptsMode mode floatBits (roundHalfEven mn) (roundHalfEven mx)) with
+  | some r => r
+  | none => Generated.intLadderDefault
+
+/-- the comparison mode of the current source -/
+def sourceMode : CompareMode := CompareMode.ofString Generated.intLadderCompare
+
+/-- the limit as the current source sees it -/
+def seenLimit (floatBits : Option Nat) (i : Int) : Rat :=
+  match floatBits with
+  | none => (i : Rat)
+  | some p => seenLimitFloat sourceMode p i
+
+/-- `int_min >= this_info.min and int_max <= this_info.max` (current source) -/
 def rungAccepts (floatBits : Option Nat) (lo hi : Int) (r : Rung) : Bool :=
   decide (seenLimit floatBits r.2.1 ≤ (lo : Rat)) && decide ((hi : Rat) ≤ seenLimit floatBits r.2.2)
 
-/-- `choose_int_dtype((mn, mx))` -/
+/-- `choose_int_dtype((mn, mx))` (current source) -/
 def chooseIntDtype (floatBits : Option Nat) (mn mx : Rat) : Rung :=
   match Generated.intLadder.find? (rungAccepts floatBits (roundHalfEven mn) (roundHalfEven mx)) with
   | some r => r
